@@ -144,6 +144,18 @@ class Engine:
         self.dropped = []           # statements dropped by the extraction (for the evidence)
         self.stats = {'paths': 0, 'feasibility_checks': 0}
 
+    @staticmethod
+    def spec_term(world, text, env=None):
+        """Evaluate a clause text over a world only (for lemma builders): no program state."""
+        eng = Engine('/nonexistent', world, {})
+        eng.c = Contract(key='lemma:lemma', props=[])
+        eng.pc, eng.in_spec, eng.ghost_env = [], 0, {}
+        eng.env = dict(env or {})
+        eng.env['__parent__'] = None
+        eng.old_env = eng.env
+        eng.run = Run([])
+        return eng.spec(text)
+
     # ------------------------------------------------------------------ top level
     def verify(self, c: Contract, unroll=0, extra_requires=(), pin=None, collect_outcomes=None):
         """Generate all obligations of one function under contract.
@@ -925,6 +937,16 @@ class Engine:
                 return pymod(us, z3.IntVal(10**6))
             if attr == 'total_seconds':
                 return BoundMethod(base, attr)
+        if isinstance(base, DT) and base.parts is not None and attr in ('hour', 'minute', 'second', 'microsecond'):
+            _, sec, usec = base.parts
+            sec = zint(sec)
+            if attr == 'hour':
+                return floordiv(sec, z3.IntVal(3600))
+            if attr == 'minute':
+                return floordiv(pymod(sec, z3.IntVal(3600)), z3.IntVal(60))
+            if attr == 'second':
+                return pymod(sec, z3.IntVal(60))
+            return usec
         if isinstance(base, DT):
             us = zint(base.us)
             day = pymod(us, z3.IntVal(86400 * 10**6))
@@ -1726,6 +1748,13 @@ class Engine:
                 else:
                     total = total + z * unit[k]
             return TD(z3.simplify(total))
+        if ftxt == 'datetime.datetime':
+            args, kw = self.args(e)
+            if all(isinstance(a, int) for a in args) and set(kw) <= {'tzinfo'}:
+                import datetime as _dt
+                v = _dt.datetime(*args, tzinfo=_dt.timezone.utc) - _dt.datetime(1970, 1, 1, tzinfo=_dt.timezone.utc)
+                return DT(z3.IntVal(v // _dt.timedelta(microseconds=1)))
+            raise Unsupported('datetime.datetime(...) with symbolic fields')
         if ftxt == 'time.time':
             return fresh('time', REAL)
         if ftxt == 'io.BytesIO' and not e.args:
@@ -1737,17 +1766,23 @@ class Engine:
         us = zint(dt.us)
         keys = set(kw)
         D = 86400 * 10**6
+        p = dt.parts
         if keys == {'microsecond'} and kw['microsecond'] == 0:
+            if p is not None:
+                return DT(D * zint(p[0]) + 10**6 * zint(p[1]), (p[0], p[1], 0))
             return DT(us - pymod(us, z3.IntVal(10**6)))
         if keys == {'hour', 'minute', 'second', 'microsecond'} and all(kw[k] == 0 for k in keys):
+            if p is not None:
+                return DT(D * zint(p[0]), (p[0], 0, 0))
             return DT(us - pymod(us, z3.IntVal(D)))
+        day = zint(p[0]) if p is not None else floordiv(us, z3.IntVal(D))
         if keys == {'day', 'hour', 'minute', 'second', 'microsecond'} and kw['day'] == 1 and all(kw[k] == 0 for k in keys - {'day'}):
-            day = floordiv(us, z3.IntVal(D))
-            return DT(self.world['month_start'](day) * D)
+            ms = self.world['month_start'](day)
+            return DT(ms * D, (ms, 0, 0))
         if keys == {'month', 'day', 'hour', 'minute', 'second', 'microsecond'} and kw['day'] == 1 and kw['month'] == 1 \
                 and all(kw[k] == 0 for k in keys - {'day', 'month'}):
-            day = floordiv(us, z3.IntVal(D))
-            return DT(self.world['year_start'](day) * D)
+            ys = self.world['year_start'](day)
+            return DT(ys * D, (ys, 0, 0))
         raise Unsupported(f'datetime.replace({sorted(keys)})')
 
     # ------------------------------------------------------------------ spec vocabulary
